@@ -62,7 +62,7 @@ func loadRepo(repo, verifDir string, overlay map[string][]byte, extraPatterns ..
 	prog.Build()
 	eng := &Engine{prog: prog, specs: newSpecs(), tags: map[string]int{}, tagTy: map[int]types.Type{}, lits: map[string]string{},
 		embedded: map[string]bool{}, arrayElem: map[string]bool{}, byName: map[string]*ssa.Function{}, globalsWritten: map[string]bool{},
-		fset: prog.Fset, pkgs: map[string]*ssa.Package{}, uncomparable: map[int]bool{}}
+		fset: prog.Fset, pkgs: map[string]*ssa.Package{}, uncomparable: map[int]bool{}, globalFuncInit: map[string]*ssa.Function{}}
 	for _, p := range prog.AllPackages() {
 		eng.pkgs[p.Pkg.Path()] = p
 	}
@@ -179,6 +179,18 @@ func (e *Engine) scanTypes() {
 func (e *Engine) scanGlobalWrites() {
 	for _, fn := range e.byName {
 		if fn.Name() == "init" || strings.HasPrefix(fn.Name(), "init#") {
+			// package-level variables initialised with a function literal
+			for _, b := range fn.Blocks {
+				for _, ins := range b.Instrs {
+					if st, ok := ins.(*ssa.Store); ok {
+						if g, ok := st.Addr.(*ssa.Global); ok {
+							if f, ok := st.Val.(*ssa.Function); ok {
+								e.globalFuncInit[g.Pkg.Pkg.Path()+"."+g.Name()] = f
+							}
+						}
+					}
+				}
+			}
 			continue
 		}
 		for _, b := range fn.Blocks {
@@ -297,6 +309,9 @@ func (e *Engine) checkSpecBindings() []string {
 			if _, m := e.ifaceMethod(strings.TrimPrefix(k, "invoke:")); m == nil {
 				errs = append(errs, fmt.Sprintf("%s: contract for unknown interface method %s", fs.Where, k))
 			}
+			continue
+		}
+		if e.globalFuncInit[k] != nil {
 			continue
 		}
 		if e.byName[k] == nil {
